@@ -1028,6 +1028,39 @@ _type_text_rule('float_bound_not_number', lambda t: t.name + '(min_value="a")',
                 lambda t: t.name in PRIM_FLOATS)
 
 
+def _holder_namespace(m, holder):
+    for ns in m.namespaces:
+        for d in ns.defs:
+            if d is holder or any(f is holder for lst in ('fields', 'patch_fields')
+                                  for f in getattr(d, lst, ())):
+                return ns
+    return None
+
+
+@rule('qualified_builtin_type')
+def r_qualified_builtin(m, rnd):
+    """A built-in type named through an imported namespace (`other.String`, `other.List(T)`): the other
+    namespace defines no such symbol, so the reference does not resolve."""
+    for ctx, hg, attr, steps, t in type_slots(m):
+        if t.kind == 'ref' or t.kind == 'raw':
+            continue
+        ns = _holder_namespace(m, hg(m))
+        if ns is None or not ns.imports:
+            continue
+        imp = ns.imports[rnd.randrange(len(ns.imports))]
+        imp = getattr(imp, 'name', imp)
+        text = {'prim': t.name, 'list': 'List(String)', 'map': 'Map(String, String)'}[t.kind]
+        if t.name == 'Timestamp':
+            text = 'Timestamp("%Y")'
+        if t.name == 'Void':
+            continue
+
+        def apply(m2, hg=hg, attr=attr, steps=steps, text=text, imp=imp, t=t):
+            set_nav(hg(m2), attr, steps, T('raw', '%s.%s%s' % (imp, text, '?' if t.nullable else ''),
+                                           None, None, False))
+        yield ctx + '+' + t.kind, apply
+
+
 @rule('arguments_on_user_type')
 def r_args_on_user_type(m, rnd):
     for ctx, hg, attr, steps, t in type_slots(m):
